@@ -288,6 +288,12 @@ class Ctx:
             self.enum_index[crate] = EnumIndex(os.path.join(REPO, CRATES[crate]['dir'], 'src'), feats)
             for x in CRATES[crate].get('extra_src', []):
                 self.enum_index[crate].add_dir(os.path.join(REPO, x))
+            if crate == 'api':
+                # prost-generated message types (OUT_DIR of the dump build): the newest generation
+                import glob
+                outs = sorted(glob.glob(os.path.join(BUILD, 'mir', 'target' + SUFFIX, 'debug', 'build', 'cedar-policy-*', 'out', 'cedar_policy_core.rs')), key=os.path.getmtime)
+                if outs:
+                    self.enum_index[crate].add_dir(os.path.dirname(outs[-1]))     # module name = file name = `cedar_policy_core`, as MIR prints these types
         return self.progs[crate]
 
     def new_exec(self, crate='core', mode='int', **kw):
